@@ -110,3 +110,20 @@ Definition bus_history (cf : cfg) (h : list wmsg) : bool :=
    NameOwnerChanged, so a peer's signal on the proxy's path is both "wanted" and read as an ownership claim *)
 Definition forgeable (cf : cfg) (h : list wmsg) : bool :=
   existsb (fun m => match m with WSig s => wanted cf s && is_noc s | WRep _ => false end) h.
+
+(* ---------------------------------------------------------------- forged ownership claims *)
+(* a NameOwnerChanged-shaped signal that does not carry the bus driver's sender *)
+Definition forged_claim (m : wmsg) : bool :=
+  match m with
+  | WSig s => is_noc s && negb (opt_eqb (s_sender s) (Some DRIVER))
+  | WRep _ => false
+  end.
+
+(* a signal nobody subscribed to *)
+Definition noise : wmsg :=
+  WSig {| s_sender := Some 9; s_path := 1; s_iface := 1; s_member := 1; s_body := BEmpty |}.
+
+(* the same history up to what peers claim about ownership: every forged claim may be replaced by any other
+   forged claim or by noise (positions, hence sequence numbers, stay the same) *)
+Definition claims_differ (m m' : wmsg) : Prop :=
+  m = m' \/ (forged_claim m = true /\ (forged_claim m' = true \/ m' = noise)).
